@@ -211,13 +211,15 @@ def systematic_resample(
     Implements the systematic resampling method.
     """
 
-    if random_state is not None:
-        np.random.seed(random_state)
+    # A seed given here drives a private generator (same offset as seeding the global
+    # stream would give): re-seeding the process-wide stream made every later draw of
+    # the caller replay the same numbers.
+    rng = np.random.RandomState(random_state) if random_state is not None else np.random
 
     if abs(np.sum(weights) - 1.0) > SQRTEPS:
         weights = np.array(weights) / np.sum(weights)
 
-    offset = np.random.random()
+    offset = rng.random()
 
     # A weight sum accepted as "1" may fall short of 1, leaving teeth beyond the last
     # cumulative weight: they belong to the last particle that has any weight, never
